@@ -58,6 +58,8 @@ type Decl struct {
 	Trusted  bool
 	Modifies []string
 	Pure     bool // spec func with scalar-only signature
+	Opaque   bool // spec func: definition hidden unless a unit says `reveal name`
+	Reveal   []string
 }
 
 var reTags = regexp.MustCompile(`\[((?:C\d+\s*)+)\]\s*$`)
@@ -96,6 +98,10 @@ func parseContractFile(path, pkgPath, pkgName string) ([]*Decl, error) {
 				body = strings.TrimSpace(body[:len(body)-len(m[0])])
 			}
 			switch {
+			case strings.HasPrefix(body, "opaque spec func "):
+				d.Kind = "spec"
+				d.Opaque = true
+				d.Sig = strings.TrimPrefix(body, "opaque spec func ")
 			case strings.HasPrefix(body, "spec func "):
 				d.Kind = "spec"
 				d.Sig = strings.TrimPrefix(body, "spec func ")
@@ -165,8 +171,26 @@ func parseContractFile(path, pkgPath, pkgName string) ([]*Decl, error) {
 		case "requires", "ensures", "panics_iff", "invariant", "assert", "assume":
 			newClause(kw, rest)
 		case "use":
-			// use lemmaName(args): lemma instance assumed at entry (its requires become an obligation)
-			newClause("use", rest)
+			// use lemmaName(args) [@ ANCHOR]: lemma instance assumed at entry or after the anchor statement
+			// (its requires become an obligation)
+			txt := rest
+			anchor := ""
+			if i := strings.LastIndex(rest, "@"); i >= 0 {
+				txt, anchor = strings.TrimSpace(rest[:i]), strings.TrimSpace(rest[i+1:])
+			}
+			c := newClause("use", txt)
+			c.SplitVar = anchor
+		case "ghost":
+			// ghost NAME TYPE = EXPR @ ANCHOR : names the value of EXPR right after the anchor statement
+			i := strings.LastIndex(rest, "@")
+			j := strings.Index(rest, "=")
+			f := strings.Fields(rest[:max0(j)])
+			if i < 0 || j < 0 || len(f) != 2 {
+				return nil, fmt.Errorf("%s:%d: ghost needs 'NAME TYPE = EXPR @ ANCHOR'", path, ln+1)
+			}
+			c := newClause("ghost", strings.TrimSpace(rest[j+1:i]))
+			c.SplitVar = strings.TrimSpace(rest[i+1:])
+			c.SplitLo, c.SplitHi = f[0], f[1]
 		case "hint", "cut":
 			// hint VAR: expr   -- proved after the first top-level statement assigning VAR, then assumed
 			// cut VAR: expr    -- same, and VAR is then havocked so only expr is known about it
@@ -192,14 +216,16 @@ func parseContractFile(path, pkgPath, pkgName string) ([]*Decl, error) {
 			c := newClause(f[1], text)
 			c.Loop = n
 		case "split":
-			// split v in lo..hi
-			f := strings.Fields(rest)
-			if len(f) != 3 || f[1] != "in" || !strings.Contains(f[2], "..") {
+			// split EXPR in lo..hi
+			k := strings.LastIndex(rest, " in ")
+			if k < 0 || !strings.Contains(rest[k+4:], "..") {
 				return nil, fmt.Errorf("%s:%d: bad split clause", path, ln+1)
 			}
-			lh := strings.SplitN(f[2], "..", 2)
-			c := newClause("split", f[0])
-			c.SplitVar, c.SplitLo, c.SplitHi = f[0], lh[0], lh[1]
+			lh := strings.SplitN(strings.TrimSpace(rest[k+4:]), "..", 2)
+			c := newClause("split", strings.TrimSpace(rest[:k]))
+			c.SplitVar, c.SplitLo, c.SplitHi = c.Text, lh[0], lh[1]
+		case "reveal":
+			cur.Reveal = append(cur.Reveal, strings.Fields(rest)...)
 		case "modifies":
 			cur.Modifies = append(cur.Modifies, strings.Fields(rest)...)
 		case "trusted":
@@ -228,4 +254,11 @@ func hasTag(tags []string, id string) bool {
 		}
 	}
 	return false
+}
+
+func max0(i int) int {
+	if i < 0 {
+		return 0
+	}
+	return i
 }
